@@ -123,7 +123,9 @@ ExposeDef(s, t, kind) ==
     [] kind = "local"     -> << E(5432, 0, "TCP", <<S(t)>>, <<>>) >>
     [] kind = "two"       -> << E(8080, 80, "tcp", <<G>>, HostsOf(s)), E(53, 0, "UDP", <<G>>, <<>>) >>
     [] kind = "fan"       -> << E(9000, 9001, "", <<G, S(t)>>, <<>>) >>
-    [] kind = "bare"      -> << E(7000, 0, "", <<>>, <<>>) >>
+    [] kind = "bare"      -> << E(7000, 0, "", <<>>, <<>>), E(8443, 0, "tcp", <<G>>, <<>>) >>
+    [] kind = "barehosts" -> << E(7000, 7001, "udp", <<>>, HostsOf(s)), E(80, 0, "", <<G>>, <<>>) >>
+    [] kind = "bareonly"  -> << E(7000, 0, "", <<>>, <<>>) >>                      \* no global service: invalid alone
     [] kind = "udp80"     -> << E(80, 0, "udp", <<G>>, <<>>) >>
     [] kind = "as8080"    -> << E(80, 8080, "tcp", <<G>>, <<>>) >>
     [] kind = "svcglobal" -> << E(3000, 0, "", << [service |-> t, global |-> TRUE] >>, <<>>) >>
